@@ -116,10 +116,15 @@ ADDED = {
  "C18": " Added: arbitrary non-zero ints for the 'party' flag; production build in the quick tier.",
  "C20": " Added: helgrind runs of the production build (inline asm included), production build in the quick tier, a shim death in the static-context workload is a violation.",
 }
+GLOBAL_ADDED = (" Every check also repeats a sample of its calls on a byte copy of secp256k1_context_static (operations the headers do not restrict) and on a "
+                "second randomized context with a replaced SHA-256 compression function, demanding identical replies; quick tiers run secondary builds "
+                "(production / 32-bit limbs / no asm, three comb-table layouts) on a third of each workload.")
 NOTE_FIX = {
  "C10": "Trusted: ref/rangeproof.py, ref/borromean.py (incl. the small-x prover with a chosen generator).",
 }
 for _k, _v in ADDED.items():
     if _k in CHECKS: CHECKS[_k]["text"] = CHECKS[_k]["text"] + _v
+for _k in CHECKS:
+    if _k not in ("C06",): CHECKS[_k]["text"] = CHECKS[_k]["text"] + GLOBAL_ADDED
 for _k, _v in NOTE_FIX.items():
     if _k in CHECKS: CHECKS[_k]["note"] = _v
